@@ -94,21 +94,22 @@ type xchain struct {
 }
 
 type world struct {
-	rec         *kernel.Rec
-	cfg         map[string]int64
-	now         time.Time
-	chains      []*xchain
-	gov         *node.Account
-	relayers    []*node.Account
-	users       []*node.Account
-	adv         *node.Account
-	tss         *node.Account
-	m           *model
-	wire        []*wireMsg
-	history     []*relayMsg
-	partition   map[[2]int]time.Time // (relayer, chain) -> until
-	nextCorrupt *corruption
-	settled     bool
+	rec          *kernel.Rec
+	cfg          map[string]int64
+	now          time.Time
+	chains       []*xchain
+	gov          *node.Account
+	relayers     []*node.Account
+	extraTracked map[string]common.Address // contracts created by multicall sends (packet senders, refund receivers)
+	users        []*node.Account
+	adv          *node.Account
+	tss          *node.Account
+	m            *model
+	wire         []*wireMsg
+	history      []*relayMsg
+	partition    map[[2]int]time.Time // (relayer, chain) -> until
+	nextCorrupt  *corruption
+	settled      bool
 }
 
 func (w *world) chainByName(name string) *xchain {
